@@ -1,5 +1,6 @@
 import Ucan.Lemmas.CborPrefix
 import Ucan.Props.C17
+import Ucan.Lemmas.CidStream
 /-!
 # C18 — streaming APIs agree with buffered APIs and surface every I/O fault
 
@@ -183,5 +184,42 @@ theorem C18_truncated_cbor_container {T : Type} (unsealFn : Bytes → Option (By
   | none => simp [hd] at h
   | some m =>
     simp only [Cbor.decode_proper_prefix_none b p m hd hp hne]
+
+/-! ### the CID computed while a token streams through (`envelope.CIDReader` / `CIDWriter`) -/
+
+open Ucan.CidStream in
+/-- C18 / C08 (reader): for EVERY history of deliveries of the underlying reader — any chunking, data arriving together with
+`io.EOF`, reads after the end — if no delivery failed, the CID reported is the CID of exactly the bytes that were delivered, in
+order (what the buffered call computes on the same bytes); if any delivery failed, `CID()` is an error, whatever came later -/
+theorem C18_cid_reader {C : Type} (cidOf : Bytes → C) (hist : List (Bytes × Outcome)) :
+    (anyFail hist = none → (Reader.run {} hist).cid cidOf = .ok (cidOf (delivered hist))) ∧
+    (∀ e, anyFail hist = some e → ∃ e', (Reader.run {} hist).cid cidOf = .error e') := by
+  obtain ⟨a, b⟩ := run_spec {} hist rfl
+  constructor
+  · intro h
+    obtain ⟨h1, h2⟩ := a h
+    simp [Reader.cid, h1, h2]
+  · intro e h
+    obtain ⟨e', he⟩ := b e h
+    exact ⟨e', by simp [Reader.cid, he]⟩
+
+open Ucan.CidStream in
+/-- chunking does not matter: two failure-free histories that deliver the same bytes report the same CID -/
+theorem C18_cid_reader_chunking {C : Type} (cidOf : Bytes → C) (h1 h2 : List (Bytes × Outcome))
+    (hf1 : anyFail h1 = none) (hf2 : anyFail h2 = none) (hd : delivered h1 = delivered h2) :
+    (Reader.run {} h1).cid cidOf = (Reader.run {} h2).cid cidOf := by
+  rw [(C18_cid_reader cidOf h1).1 hf1, (C18_cid_reader cidOf h2).1 hf2, hd]
+
+open Ucan.CidStream in
+/-- C18 / C08 (writer): the CID reported after any sequence of writes is the CID of the concatenation of everything written,
+however the encoder split its output into writes -/
+theorem C18_cid_writer {C : Type} (cidOf : Bytes → C) (ps : List Bytes) :
+    (Writer.run {} ps).cid cidOf = cidOf ps.flatten := by
+  simp [Writer.cid, writer_run_spec]
+
+open Ucan.CidStream in
+example : anyFail [([1, 2], .ok), ([3], .eof), ([], .eof)] = none ∧
+    delivered [([1, 2], .ok), ([3], .eof), ([], .eof)] = [1, 2, 3] ∧
+    anyFail [([1, 2], .ok), ([3], .fail 7), ([4], .ok)] = some 7 := by decide
 
 end Ucan.Container
